@@ -325,6 +325,22 @@ def r4_no_drop(chk: Check) -> None:
 
     inner = [h for h in hs if items_loops(h) >= 2]
     chk.decide(bool(inner), "C08.R4", fn, "per-operation handler inside the method loop", "one malformed operation aborts all other methods of the same path", fn.loc())
+    # what the tuple covers: a malformed document puts None / a number / a string where a mapping or list is expected;
+    # iterating or subscripting those raises KeyError, AttributeError (`.get` / `.items` on a str) and TypeError
+    # (`for p in None`, `42["$ref"]`, `"x" in 42`).  A class missing here escapes the generator: the operation is not
+    # reported and every LATER operation is never offered.
+    tup = next((s_.value for s_ in fn.module.tree.body if isinstance(s_, ast.Assign) and any(isinstance(t, ast.Name) and t.id == "SCHEMA_PARSING_ERRORS" for t in s_.targets)), None)
+    if isinstance(tup, ast.Tuple):
+        names = {dotted(e) for e in tup.elts}
+        need = {"KeyError", "AttributeError", "TypeError"}
+        if names & {"Exception", "BaseException"} or need <= names:
+            chk.ok("C08.R4", fn, "SCHEMA_PARSING_ERRORS covers what malformed entries raise", str(sorted(n_ for n_ in names if n_)), OAS)
+        else:
+            chk.violation("C08.R4", OAS, "SCHEMA_PARSING_ERRORS covers what malformed entries raise",
+                          f"{sorted(need - names)} missing from the per-operation error classes: an empty YAML `parameters:` (None) or `parameters: 42` under one operation raises TypeError, which is not converted into an Err - it kills the get_all_operations generator, the broken operation is not reported and all following operations are silently never tested (exit 0)",
+                          OAS)
+    else:
+        chk.undecided("C08.R4", OAS, "SCHEMA_PARSING_ERRORS covers what malformed entries raise", "tuple of error classes not found", OAS)
     ie = P.func(f"{OAS}:BaseOpenAPISchema._into_err")
     rets = simple_return_expr(ie)
     chk.decide(any(isinstance(r, ast.Call) and last_attr(r) == "Err" for r in rets), "C08.R4", ie, "_into_err returns Err(InvalidSchema)", "shape not recognised", ie.loc())
